@@ -13,7 +13,7 @@ from vf import modelreplay, gen, odecore, core
 LEVEL = "model_checking"
 PREFIX = ("C03.",)
 
-MR_KINDS = ("Rows", "RunTerminates", "Dt", "Status", "CallbackCount", "Raised")
+MR_KINDS = ("Rows", "RunTerminates", "Dt", "Status", "CallbackCount", "Raised", "RequestedStep", "IntegratorCalls")
 
 
 def scenarios(tier, seed):
@@ -108,7 +108,7 @@ def check(run, replay=None):
     if not replay:
         # spec -> code: behaviours of the design model (no faults; events, callbacks, reversals, resets) replayed on the real code; the
         # recorded times, the step in force and the status must be the model's at every API return
-        modelreplay.phase(run, ["OdeSystemSim_fixed_nofault"], "C03", MR_KINDS)
+        modelreplay.phase(run, ["OdeSystemSim_fixed_nofault", "OdeSystemSim_adaptive_nofault"], "C03", MR_KINDS)
     run.assumptions += ["the sensor's interning is exact (fractions.Fraction); ranks preserve order and equality",
                         "'a few rounding units' = UlpFew = 4 ulp of the working dtype (spec/Bounds.tla)",
                         "float16 and the torch backend are not exercised"]
